@@ -340,3 +340,32 @@ def worker_history_bounded(vc):
     alone = _fresh_worker([a], start, 5)
     after_b = _fresh_worker([b, a], start, 5)
     vc.ensure("B-C10-worker.history-independent", alone == after_b)
+
+
+@obligation("C10", "pickle_frame_bounded", ensures=["B-C10-ship.agent-unchanged"],
+            fns=["resonaate.agents.target_agent:TargetAgent", "resonaate.agents.sensing_agent:SensingAgent", "resonaate.agents.estimate_agent:EstimateAgent"], mode="Z", native_only=True, samples=6,
+            bounded="BOUNDED stand-in, not a proof: the three agent classes, instances built without __init__ carrying a station-keeping routine, a queued maneuver and a state; pickle and deepcopy",
+            note="shipping an agent to a worker (ray.put pickles it; workers deep-copy filters) is a READ of the agent: afterwards every attribute of the live agent is the object it was, "
+                 "lists keep their members - so whether estimation and tasking run (the only code that ships targets) cannot change the truth (what the copy must carry is the job-construction contract truth_job)")
+def pickle_frame_bounded(vc):
+    import copy
+    import pickle
+    from resonaate.agents.target_agent import TargetAgent
+    from resonaate.agents.sensing_agent import SensingAgent
+    from resonaate.agents.estimate_agent import EstimateAgent
+    which = vc.int("agent_class", 0, 2)
+    C = [TargetAgent, SensingAgent, EstimateAgent][which]
+    a = object.__new__(C)
+    keeper, burn = {"routine": "GEO-EW", "longitude": 1.25}, {"impulse": [0.0, 0.001, 0.0], "time": 300.0}
+    attrs = dict(_simulation_id=11, _name="a", _truth_state=np.arange(6.0), _eci_state=np.arange(6.0), _time=60.0, _station_keeping=[keeper], station_keeping=[keeper],
+                 _propagate_event_queue=[burn], propagate_event_queue=[burn], _dynamics={"model": "sp"}, _realtime=True, _initial_state=np.arange(6.0))
+    for k, v in attrs.items():
+        try:
+            object.__setattr__(a, k, v)
+        except AttributeError:   # a read-only property of this class: its backing field (also in the list) carries the value
+            pass
+    before = {k: (id(v), list(v) if isinstance(v, list) else None) for k, v in a.__dict__.items()}
+    shipped = pickle.loads(pickle.dumps(a))
+    cloned = copy.deepcopy(a)
+    after = {k: (id(v), list(v) if isinstance(v, list) else None) for k, v in a.__dict__.items()}
+    vc.ensure("B-C10-ship.agent-unchanged", before == after and a.__dict__.get("_station_keeping") == [keeper] and a.__dict__.get("_propagate_event_queue") == [burn])
